@@ -246,6 +246,14 @@ def run_circshift(util, c):
         kw = dict(start_idx=c["start"], dft_size=None, copy=c["copy"])
     else:
         kw = dict(start_idx=c["start"], dft_size=c["dft"], copy=c["copy"])
+    it = c.get("int_type")
+    if it:
+        # the integer arguments as NumPy integer scalars (what len(), shape arithmetic and np.argmax hand to a caller): an
+        # integer is an integer whatever its Python type
+        T = dict(int64=np.int64, int32=np.int32, intp=np.intp)[it]
+        conv = lambda v: v if v is None or not (-2 ** 31 < v < 2 ** 31) else T(v)
+        args = [filt, conv(c["shift"])]
+        kw = {k: (conv(v) if k in ("start_idx", "dft_size") else v) for k, v in kw.items()}
     try:
         out = util.circshift_fourier(*args, **kw)
     except Exception as e:  # noqa
@@ -384,6 +392,11 @@ def gen_circshift(ctx):
         sh = r.choice([0, 1, -1, 2, -2, D, -D, D + 1, D - 1, 2 * D + 3, -3 * D - 2, r.randint(-200, 200),
                        r.randint(-10 ** 6, 10 ** 6)])
         cases.append(mk(ln, start, dft_mode, dft, sh, r.random() < 0.5, r.choice(["c128", "c128", "c128", "c64", "f64"])))
+    # every seventh case hands its integers over as NumPy integer scalars (fixed by position, not by the RNG)
+    for i, c in enumerate(cases):
+        D = c["dft"] if c["dft_mode"] == "given" else c["start"] + len(c["filt"])
+        if i % 7 == 5 and D >= 1:   # (D = 0 is the error path: NumPy integers do not raise ZeroDivisionError there)
+            c["int_type"] = ["int64", "int32", "intp"][(i // 7) % 3]
     return cases
 
 
